@@ -1,3 +1,41 @@
-From Coq Require Import List. Require Import M_Parse.
-Theorem placeholder_C02 : True. Proof. exact I. Qed.
-Print Assumptions placeholder_C02.
+(* C02 - the references table is exactly the declared relation, oriented forward *)
+From Coq Require Import String Ascii List Bool Arith NArith ZArith.
+Require Import PyStr PyInt Sexp Xml M_C09 M_C08 Ns Table M_Parse T_Parse.
+Import ListNotations.
+Open Scope char_scope.
+
+(* a triple appears once, however often and in however many files it is declared *)
+Theorem C02_no_duplicates : forall E caller docs p,
+  parse_files E caller docs = Ok p -> NoDup (p_refs p).
+Proof. exact C02_no_duplicates. Qed.
+
+(* a Reference on node src with text trg is src->trg unless IsForward is exactly "false"; its type is resolved from alias or NodeId *)
+Theorem C02_orientation : forall src nsmap amap r t,
+  parse_ref src nsmap amap r = Ok t ->
+  exists text tytext trg ty, re_text r = Some text /\ lookup_attr (lit "ReferenceType") (re_attrs r) = Some tytext /\
+    parse_nodeid (rstrip text) nsmap amap = Ok trg /\ parse_nodeid tytext nsmap amap = Ok ty /\
+    t = (if is_forward (re_attrs r) then (src, trg, ty) else (trg, src, ty)).
+Proof. exact C02_orientation. Qed.
+
+(* the triples of a file are exactly those its Reference elements declare (none lost, none invented), with no condition on the endpoints being defined anywhere *)
+Theorem C02_file_exact : forall E ns d ns1 fo,
+  parse_file E ns d = Ok (ns1, fo) ->
+  let nsmap := zmap_of (snd (file_ns ns d)) in
+  exists amap, (match d_aliases d with Some l => build_aliases l nsmap | None => Ok [] end) = Ok amap /\
+  NoDup (fo_refs fo) /\
+  forall t, In t (fo_refs fo) <->
+    exists e r nid src, In e (d_nodes d) /\ In r (ne_refs e) /\ lookup_attr (lit "NodeId") (ne_attrs e) = Some nid /\
+      parse_nodeid nid nsmap amap = Ok src /\ parse_ref src nsmap amap r = Ok t.
+Proof. exact C02_file_exact. Qed.
+
+(* over a file set: exactly the triples of the parsed files *)
+Theorem C02_all_files : forall E caller docs p,
+  parse_files E caller docs = Ok p ->
+  exists ns fos, parse_seq E caller (sort_docs (match caller with [] => docs | _ => filter (keep_file caller) docs end)) = Ok (ns, fos) /\
+  NoDup (p_refs p) /\ forall t, In t (p_refs p) <-> exists fo, In fo fos /\ In t (fo_refs fo).
+Proof. exact C02_all_files. Qed.
+
+Print Assumptions C02_no_duplicates.
+Print Assumptions C02_orientation.
+Print Assumptions C02_file_exact.
+Print Assumptions C02_all_files.
